@@ -47,8 +47,19 @@ func c10DiffOn[T any](b []byte, remarshal bool) {
 	if remarshal {
 		// shapes without optional/default fields: DER is canonical, so the input is reproduced
 		vAssert(err == nil, "accepted value re-marshals")
+		consumed := b[:n-len(frest)]
+		if err == nil && reflect.TypeOf(f).Kind() == reflect.Struct {
+			// Both decoders ignore bytes that follow the last field inside a SEQUENCE; such an input is
+			// accepted but is not the strict DER encoding of the value. The strict-DER inputs are those
+			// whose SEQUENCE holds nothing but the fields, i.e. whose length equals the re-encoding's.
+			vAssert(len(out) <= len(consumed), "the re-encoding is never longer than the accepted input")
+			if len(out) != len(consumed) {
+				vReach("trailing-in-sequence")
+				return
+			}
+		}
 		if err == nil {
-			vAssert(bytes.Equal(out, b[:n-len(frest)]), "marshalling the unmarshalled strict-DER value reproduces the input bytes")
+			vAssert(bytes.Equal(out, consumed), "marshalling the unmarshalled strict-DER value reproduces the input bytes")
 		}
 	}
 }
@@ -70,7 +81,7 @@ type c10S3 struct {
 
 type c10S4 struct {
 	A int `asn1:"optional,default:5"`
-	S string `asn1:"ia5"`
+	B bool
 }
 
 type c10S5 struct {
@@ -113,8 +124,10 @@ func Harness_C10_um_s2() { c10Diff[c10S2](2 + vChoice("len", 7), false) }
 //verif:opt maxpaths=30000 reach=accepted,rejected
 func Harness_C10_um_s3() { c10Diff[c10S3](2 + vChoice("len", 8), false) }
 
-//verif:opt maxpaths=30000 reach=accepted,rejected wall=1200 tier=thorough
+//verif:opt maxpaths=30000 reach=accepted,rejected tier=thorough
 func Harness_C10_um_s4() { c10Diff[c10S4](2 + vChoice("len", 7), false) }
 
-//verif:opt maxpaths=30000 reach=accepted,rejected tier=thorough
-func Harness_C10_um_s5() { c10Diff[c10S5](4 + vChoice("len", 8), true) }
+// the shortest accepted input is 12 bytes: 30 0a (30 06 (02 01 x) (01 01 y)) (30 00)
+//
+//verif:opt maxpaths=120000 reach=accepted,rejected tier=thorough
+func Harness_C10_um_s5() { c10Diff[c10S5](11 + vChoice("len", 3), true) }
